@@ -49,6 +49,9 @@ SPECS = [
     ("distance", {}), ("distance", {"onesite": True}), ("distance", {"onesite": True, "dummy": True}),
     ("distanceZ", {"axis": "axis"}), ("distanceZ", {"axis": "ref2"}), ("distanceZ", {"axis": "default"}),
     ("distanceZ", {"axis": "axis", "onesite": True}),
+    # a group expressed in the moving frame of a separate fitting group (position of a ligand along a protein axis)
+    ("distanceZ", {"axis": "axis", "fit": "fitgroup"}), ("distanceZ", {"axis": "axis", "fit": "fitgroup", "onesite": True}),
+    ("distanceXY", {"axis": "axis", "fit": "fitgroup", "onesite": True}),
     ("distanceXY", {"axis": "axis"}), ("distanceXY", {"axis": "ref2"}), ("distanceXY", {"axis": "default"}),
     ("distanceXY", {"axis": "axis", "onesite": True}),
     ("angle", {}), ("angle", {"onesite": True}),
@@ -332,6 +335,8 @@ def projection_model(case, comp, pos, F):
     sysm = case["sysm"]
     g = comp["groups"]
     ct = comp["ctype"]
+    if "fittingGroup" in comp["text"] or "rotateToReference" in comp["text"]:
+        return None        # positions and forces are taken in a moving frame: not modelled here (the inverse laws still apply)
     if ct == "distance":
         c1 = com(sysm, pos, g["group1"])
         c2 = com(sysm, pos, g["group2"]) if g["group2"] else None
